@@ -211,7 +211,7 @@ class World(object):
                 raise OutOfReach('base class expression')
         for n in node.body:
             if isinstance(n, ast.FunctionDef):
-                c.methods[n.name] = FuncRef(m, name + '.' + n.name, n, cls=c)
+                c.methods[n.name] = FuncRef(m, name + '.' + n.name, n, cls=c, is_spec=m.is_spec)
             elif isinstance(n, ast.Assign):
                 for t in n.targets:
                     if isinstance(t, ast.Name):
@@ -365,6 +365,9 @@ def merge_eval(it, thunk):
         for c in parent.pc:
             sub.solver.add(c)
         sub.flags = parent.flags
+        if parent.has_quant:
+            sub.has_quant = True
+            sub.solver.set('timeout', sub.FEAS_TIMEOUT_QUANT_MS)
         it2 = Interp(it.world, sub)
         res = None
         try:
@@ -402,6 +405,9 @@ def merge_value(it, thunk):
         for c in parent.pc:
             sub.solver.add(c)
         sub.flags = parent.flags
+        if parent.has_quant:
+            sub.has_quant = True
+            sub.solver.set('timeout', sub.FEAS_TIMEOUT_QUANT_MS)
         it2 = Interp(it.world, sub)
         val = None
         try:
@@ -784,6 +790,7 @@ class SpecAPI(object):
         for nm in ('NONE_T', 'BOOL', 'INT', 'FLOAT', 'STR', 'ERR', 'DATE', 'NUMBER', 'NUMBERB', 'SCALAR', 'HOSTOBJ',
                    'ANY', 'VALUE_T', 'HOSTFN'):
             self.table[nm] = getattr(_api, nm)
+        self.table['OMITTED'] = _api.OMITTED
         for nm in ('SEQ', 'ARGS', 'CONST', 'TUPLE', 'LISTN', 'OBJECT'):
             self.table[nm] = Builtin('dom.' + nm, (lambda f: (lambda it, a, k: f(*a, **k)))(getattr(_api, nm)))
 
@@ -882,6 +889,60 @@ class SpecAPI(object):
         rng = z3.And(j >= lt, j < ht)
         t = z3.ForAll([j], z3.Implies(rng, body)) if is_all else z3.Exists([j], z3.And(rng, body))
         return ctx.branch(t)
+
+    def s_flat(self, it, a, k):
+        """ leaves of a nested list, left to right (spec of utils.iflatten) """
+        v = a[0]
+        ctx = it.ctx
+        flat_f = z3.Function('flat', SeqVal, SeqVal)
+
+        def flat_sym(s):
+            seq = s.pay(LIST)
+            ek = self.world.elem_kinds(s)
+            if LIST not in ek:
+                return seq
+            j = z3.Int('flat!j')
+            ctx.assume(z3.Implies(z3.ForAll([j], z3.Implies(z3.And(j >= 0, j < z3.Length(seq)), z3.Not(REC[LIST](seq[j])))),
+                                  flat_f(seq) == seq))
+            ctx.assume(z3.ForAll([j], z3.Implies(z3.And(j >= 0, j < z3.Length(flat_f(seq))), z3.Not(REC[LIST](flat_f(seq)[j])))))
+            ctx.flags.add('spec:flat(nested) uninterpreted')
+            return flat_f(seq)
+
+        def parts_of(x):
+            if isinstance(x, (list, tuple)):
+                out = []
+                for y in x:
+                    out.extend(parts_of(y))
+                return out
+            if isinstance(x, Sym):
+                if LIST in x.kinds and ctx.test_kinds(x, (LIST,)):
+                    return [flat_sym(x)]
+                return [z3.Unit(x.val)]
+            try:
+                return [z3.Unit(to_val(x))]
+            except Unliftable as u:
+                raise OutOfReach('flat(): %s' % u)
+        if isinstance(v, Sym):
+            kd = ctx.narrow(v)
+            if kd != LIST:
+                raise OutOfReach('flat of a non-list')
+            r = mk_list(z3.simplify(flat_sym(v)))
+            self.world.set_elem_kinds(r, self.world.elem_kinds(v) - {LIST})
+            return r
+        if isinstance(v, (list, tuple)):
+            if all(not isinstance(x, (Sym, list, tuple)) or (isinstance(x, Sym) and LIST not in x.kinds) for x in v):
+                return list(v)
+            ps = parts_of(v)
+            r = mk_list(z3.simplify(z3.Concat(*ps)) if len(ps) > 1 else (ps[0] if ps else z3.Empty(SeqVal)))
+            self.world.set_elem_kinds(r, ALL_KINDS - {LIST})
+            return r
+        raise OutOfReach('flat of %r' % (v,))
+
+    def s_collapse_spaces(self, it, a, k):
+        return self.world.builtins.x_re_sub(it, [' {2,}', ' ', a[0]], {})
+
+    def s_replace_kth(self, it, a, k):
+        raise OutOfReach('replace_kth: k-th occurrence replacement has no SMT definition (bounded only)')
 
     def s_int_of_text(self, it, a, k):
         s = as_sym(a[0])
